@@ -1,6 +1,7 @@
 package props
 
 import (
+	"net/netip"
 	"net/url"
 	"strings"
 
@@ -205,15 +206,34 @@ func boolStr(b bool) string {
 	return "false"
 }
 
+// c17Dirty is a request object that is filled again and again, the way the DNS
+// engine reuses pooled request objects.
+var c17Dirty = rules.NewRequest("https://Other.Example.NET/some/path?x=1", "https://source.example.org/", rules.TypeScript)
+
 func c17CheckHostname(c *core.Ctx, h string) {
 	var r *rules.Request
 	if c.Guard("NewRequestForHostname", nil, c17Witness{Host: h}, func() { r = rules.NewRequestForHostname(h) }) {
 		return
 	}
+	c17JudgeHostname(c, "NewRequestForHostname", h, r)
+	// The other public way to the same request: fill an object that has been
+	// used for something else before.
+	if c.Rng.Intn(4) == 0 {
+		*c17Dirty = *rules.NewRequest("https://Other.Example.NET/some/path?x=1", "https://source.example.org/", rules.TypeScript)
+		c17Dirty.ClientIP = netip.MustParseAddr("10.1.2.3")
+		c17Dirty.ClientName = "laptop"
+	}
+	if c.Guard("FillRequestForHostname", nil, c17Witness{Host: h}, func() { rules.FillRequestForHostname(c17Dirty, h) }) {
+		return
+	}
+	c17JudgeHostname(c, "FillRequestForHostname(reused object)", h, c17Dirty)
+}
+
+func c17JudgeHostname(c *core.Ctx, via, h string, r *rules.Request) {
 	c.Eval(1)
 	bad := func(field, got, want string) {
 		c.Violation("hostname-request-mismatch:"+field, nil, c17Witness{Host: h, Field: field, Got: got, Want: want},
-			"NewRequestForHostname(%q).%s = %q, reference %q", h, field, got, want)
+			"%s(%q).%s = %q, reference %q", via, h, field, got, want)
 	}
 	want := c17RegDomain(h)
 	switch {
